@@ -61,6 +61,32 @@ func (c *Coproc) Call(line string) (string, error) {
 	return strings.TrimRight(reply, "\n"), nil
 }
 
+// CallBatch sends all lines, then reads one reply per line.
+func (c *Coproc) CallBatch(lines []string) ([]string, error) {
+	c.mu.Lock()
+	defer c.mu.Unlock()
+	if c.dead {
+		return nil, &DeadError{c.stderr.String()}
+	}
+	errc := make(chan error, 1)
+	go func() {
+		_, err := io.WriteString(c.in, strings.Join(lines, "\n")+"\n")
+		errc <- err
+	}()
+	out := make([]string, 0, len(lines))
+	for range lines {
+		reply, err := c.out.ReadString('\n')
+		if err != nil {
+			return out, c.died()
+		}
+		out = append(out, strings.TrimRight(reply, "\n"))
+	}
+	if err := <-errc; err != nil {
+		return out, c.died()
+	}
+	return out, nil
+}
+
 func (c *Coproc) died() error {
 	c.dead = true
 	c.in.Close()
